@@ -109,6 +109,22 @@ func c17(r *Run) {
 		r.mustPass("C17.R1:restart-when-pending"+ordinal(i), "when that re-read finds pending triggers the worker restarts itself (foreach)", worker, rel, edgesEstablishing(worker, pending),
 			func(x ssa.Instruction) bool { return isCall(x, foreach) }, nil, nil, "foreach() on every path from trigger>0")
 	}
+	// the worker exits after giving up the run flag only on an edge where it observed no pending trigger
+	for i, rel := range releases {
+		idle := cmpAtom(atomicValOn("Load", fTrigger), isConstEq(0), func(op token.Token) (bool, bool) {
+			switch op {
+			case token.GTR, token.NEQ:
+				return false, true
+			case token.LEQ, token.EQL:
+				return true, true
+			}
+			return false, false
+		})
+		ss := &Search{Fn: worker, Stop: func(x ssa.Instruction) bool { return isCall(x, foreach) }, CutEdge: cutOn(idle)}
+		wit := ss.Find([]Start{After(rel)}, nil, true)
+		r.Visited += ss.Visited
+		r.obW("C17.R1:exit-only-if-idle"+ordinal(i), "after Store(runNum,0) the worker exits without restarting only on an edge where it observed trigger == 0", worker, rel, wit, "foreach(), or a trigger==0 observation, on every path to exit")
+	}
 	for _, fl := range findIns(worker, isFlush) {
 		r.neverReach("C17.R2:nothing-appended-after-flush", "no getter is dealt with after the flush of this run", worker, fl, []Start{After(fl)}, func(i ssa.Instruction) bool { return isCall(i, deal) }, nil, nil, nil, "no deal() after flush()")
 	}
